@@ -5,6 +5,7 @@ import (
 	"encoding/json"
 	"fmt"
 	"strings"
+	"unicode/utf8"
 
 	"golang.org/x/mod/modfile"
 	"golang.org/x/mod/semver"
@@ -269,6 +270,7 @@ func c02FormatParsed(data string, mode, kind int) wire.Val {
 
 func runC02(c *hx.Ctx) {
 	r := c.Rng
+	c02QuoteCases(c)
 	accepted := 0
 	for i := 0; accepted < c.N(9000) && i < c.N(40000); i++ {
 		data, label := c02Input(c)
@@ -337,6 +339,46 @@ func runC02(c *hx.Ctx) {
 	}
 }
 
+// MustQuote / AutoQuote directly (the printer relies on them through parseString)
+func c02QuoteCases(c *hx.Ctx) {
+	r := c.Rng
+	for i := 0; i < c.N(3000); i++ {
+		s := gen.QuoteProbe(r)
+		var mq bool
+		var aq string
+		_, panicked, _ := MfWatchdog(func() { mq, aq = modfile.MustQuote(s), modfile.AutoQuote(s) })
+		if panicked {
+			c.Case("AutoQuote", wire.S(s), wire.Panic())
+		} else {
+			c.Case("AutoQuote", wire.S(s), wire.L(wire.Bool(mq), wire.S(aq)))
+		}
+		c.Count(fmt.Sprintf("MustQuote=%v", mq))
+		// oracle: AutoQuote(s) is one token of the lexer and parseString gives s back
+		// (for strings that survive strconv.Quote/Unquote, i.e. valid UTF-8)
+		msg := c02AutoQuoteOracle(s)
+		c.Check("autoquote-is-one-token", msg == "", "", c02In{Op: "autoquote", Data: hex.EncodeToString([]byte(s))}, msg)
+	}
+}
+
+func c02AutoQuoteOracle(s string) string {
+	if !utf8.ValidString(s) || s == "" || c02Lone[s] {
+		return ""
+	}
+	q := modfile.AutoQuote(s)
+	fs, err := modfile.VerifParse("go.mod", []byte("x "+q+"\n"))
+	if err != nil {
+		return fmt.Sprintf("AutoQuote(%q) = %q does not lex: %v", s, q, err)
+	}
+	if len(fs.Stmt) != 1 {
+		return fmt.Sprintf("AutoQuote(%q) = %q parses to %d statements", s, q, len(fs.Stmt))
+	}
+	l, ok := fs.Stmt[0].(*modfile.Line)
+	if !ok || len(l.Token) != 2 || l.Token[1] != q || len(l.Suffix) != 0 {
+		return fmt.Sprintf("AutoQuote(%q) = %q is not read back as one token: %T %q", s, q, fs.Stmt[0], MfEvents(fs))
+	}
+	return ""
+}
+
 func replayC02(raw json.RawMessage) (bool, string) {
 	var in c02In
 	if err := json.Unmarshal(raw, &in); err != nil {
@@ -351,6 +393,9 @@ func replayC02(raw json.RawMessage) (bool, string) {
 			return false, reparse
 		}
 		return idem == "", idem
+	case "autoquote":
+		msg := c02AutoQuoteOracle(data)
+		return msg == "", msg
 	case "Parse", "ParseWork":
 		msg, _ := c02Directives(in.Op, data, in.Mode)
 		return msg == "", msg
